@@ -236,12 +236,15 @@ def geometry(kind):
     raise ValueError(kind)
 
 
-def minimize(ctx, L, pred, keep_prefix=0, first=0, nblocks=1760, budget=120):
-    """delta-debug the script lines (the first keep_prefix lines are kept); pred(result) -> bool"""
+def minimize(ctx, L, pred, keep_prefix=0, first=0, nblocks=1760, budget=120, seconds=90):
+    """delta-debug the script lines (the first keep_prefix lines are kept); pred(result) -> bool.
+    Bounded by a number of runs and by wall-clock time (a looping implementation costs a watchdog period per run)."""
+    import time as _t
+    t_end = _t.time() + seconds
     cur = list(L)
     n = 2
     runs = 0
-    while len(cur) - keep_prefix >= 2 and runs < budget:
+    while len(cur) - keep_prefix >= 2 and runs < budget and _t.time() < t_end:
         body = cur[keep_prefix:]
         chunk = max(1, len(body) // n)
         reduced = False
@@ -257,7 +260,7 @@ def minimize(ctx, L, pred, keep_prefix=0, first=0, nblocks=1760, budget=120):
                 n = max(n - 1, 2)
                 reduced = True
                 break
-            if runs >= budget:
+            if runs >= budget or _t.time() > t_end:
                 break
         if not reduced:
             if chunk == 1:
